@@ -19,6 +19,9 @@ CHECKS = {
  "C13": dict(engine="gcsim", technique=TECH+"seeded histories over a forest of VMs and thread trees: make/transfer (re_root, channel from coroutine, allocation failure during the clone)/collect/drop thread/drop VM/call, forced collections; canonical graph encoding (guarded hook) for isomorphism, Trace-driven ownership walk after every operation",
    text="Seeded exploration of transfer histories: every copy's object graph encoding (sharing and cycles included, closures and cells followed) equals the original's, stays equal after the sender is collected or dropped, received closures compute isomorphic results, and after every operation no heap holds a pointer into a heap that is neither itself nor an ancestor and no freed object is reachable.",
    note="Trusted: the guarded graph encoder and owner ids in vm/src/value.rs, gc.rs; two VMs in one process stand in for unrelated VMs.", ref="DESIGN.md §4 C13"),
+ "C14": dict(engine="threadsim", technique=TECH+"token-passing scheduler over real OS threads: exactly one logical thread runs, the next holder is drawn from the decision tape at every instrumented lock acquisition (try_lock probing), debug-hook event inside running bytecode, pending future and spawn; simulator-owned executor/Spawn seam (one logical thread per import task); exact deadlock oracle (no runnable logical thread); differential against solo execution",
+   text="Seeded exploration of interleavings of 2-6 logical threads (plus one logical thread per spawned import task) compiling and running programs with overlapping imports, allocation bursts and explicit/forced collections on sibling gluon threads of one VM: every operation equals its solo outcome, every module body ticks once, no panic, no freed object reachable, and a state with no runnable logical thread is reported as a deadlock with the waits-for set. Replays exactly from the recorded tape.",
+   note="Trusted: the instrumented lock set (context, child_threads, global gc, import compiler mutex) covers every lock held across a scheduling point; a wait on an un-instrumented lock stalls the run and is counted inconclusive, never a violation. Interleavings between two scheduling points are not explored.", ref="DESIGN.md §4 C14"),
  "C15": dict(engine="modsim", technique=TECH+"seeded edit/evaluate/cancel histories on one long-lived VM against a brand-new VM with the current sources after every evaluation (refinement), evaluation counter per (module, version) and epoch, cancellation injected at debug-hook yields, hang = pending with no wake-up",
    text="Seeded exploration of module edit histories (value/type changes, import edges, cycles, type/parse/run-time errors in dependencies, add_module vs load_script, cancelled evaluations): every evaluation outcome equals a fresh VM's, reported cycles lie on a cycle of the current import graph, no module body runs twice between two edits, nothing hangs.",
    note="Trusted: the fresh VM is the reference; error message text is not compared (C16), only error class and cycle membership.", ref="DESIGN.md §4 C15"),
@@ -42,7 +45,7 @@ NA = {
  "C19":"immutable single-threaded library code; operation sequences are inputs to pure functions",
  "C20":"pure function of (program, cursor offset)",
 }
-PLANNED = {"C14":"threadsim",}
+PLANNED = {}
 
 def commits():
     out = subprocess.run(["git","-C","/repo","log","--format=%h %s"],capture_output=True,text=True).stdout
